@@ -6,6 +6,7 @@ stdin : {"batches": [{"fam": <family>, "cases": [<case>, ...]}, ...]}
 stdout: last line = JSON list (per batch) of lists (per case) of {"main": obs, "twin": obs|None}
 """
 import importlib
+import inspect
 import json
 import shutil
 import sys
@@ -31,6 +32,10 @@ def py_value(v):
 
 
 def lit(v):
+    if "spec" in v:   # a class-typed parameter defaulting to a class spec: lazy_instance(Cls, **init_args)
+        sp = v["spec"]
+        args = "".join(", %s=%r" % (k, py_value(x)) for k, x in sp["ia"])
+        return "lazy_instance(%s%s)" % (sp["cp"].split(".")[-1], args)
     return repr(py_value(v))
 
 
@@ -99,15 +104,49 @@ def _func_source(f):
             "    return %s(%s)" % (f["ret"], ", ".join("%s=%s" % (n, n) for n in names)), ""]
 
 
-def module_source(fam):
-    out = ["import abc", "from typing import Optional", "LOG = []", ""]
+HEADER = ["import abc", "from typing import Optional", "from jsonargparse import lazy_instance"]
+
+
+def sub_names(fam):
+    """submodules of a family laid out as a package, in order of first use"""
+    out = []
+    for _, sname in fam.get("subs") or []:
+        if sname not in out:
+            out.append(sname)
+    return out
+
+
+def module_source(fam, sub=None):
+    """sub None: the module itself (for a package: its __init__.py); else: that submodule"""
+    where = dict(fam.get("subs") or [])
+    subs = sub_names(fam)
+    if sub is None:
+        out = HEADER + ["LOG = []", ""]
+    else:
+        out = HEADER + ["from %s import *" % fam["mod"]]
+        out += ["from %s.%s import *" % (fam["mod"], x) for x in subs[: subs.index(sub)]] + [""]
     for c in fam["classes"]:
-        out += _class_source(fam, c)
+        if where.get(c["name"]) == sub:
+            out += _class_source(fam, c)
     for f in fam["funcs"]:
-        out += _func_source(f)
-    for k in fam["consts"]:
-        out.append("%s = 5" % k)
+        if where.get(f["name"]) == sub:
+            out += _func_source(f)
+    if sub is None:
+        for k in fam["consts"]:
+            out.append("%s = 5" % k)
+        if subs:
+            out.append("from . import %s" % ", ".join(subs))
+        for alias, tgt in fam.get("exports") or []:
+            out.append("from .%s import %s as %s" % (where[tgt], tgt, alias))
     return "\n".join(out) + "\n"
+
+
+def package_source(fam):
+    """all files of the family, for replays"""
+    files = {("%s/__init__.py" % fam["mod"]) if sub_names(fam) else ("%s.py" % fam["mod"]): module_source(fam)}
+    for x in sub_names(fam):
+        files["%s/%s.py" % (fam["mod"], x)] = module_source(fam, x)
+    return files
 
 
 def growth_source(fam, have):
@@ -189,7 +228,7 @@ def observe_multi(mod, opts, steps, channel):
             kw = {}
             if o["dflt"] is not None:
                 kw["default"] = py_value(o["dflt"])
-            parser.add_argument("--" + o["name"], type=getattr(mod, o["base"]), **kw)
+            parser.add_argument("--" + o["name"], type=class_obj(mod, o["base"]), **kw)
     except Exception as e:  # noqa
         return [{"exc": "add_argument:" + type(e).__name__}] * n
     try:
@@ -221,7 +260,7 @@ def split_logs(mod, accs, roots):
     n = len(roots)
     segs, start = [], 0
     for i, r in enumerate(roots):
-        pos = [k for k in range(start, len(full)) if full[k][0] == id(r)] if type(r).__module__ == mod.__name__ else []
+        pos = [k for k in range(start, len(full)) if full[k][0] == id(r)] if of_family(mod, r) else []
         stop = (pos[-1] + 1) if pos else start
         if i == n - 1:
             stop = len(full)
@@ -242,7 +281,7 @@ def split_logs(mod, accs, roots):
                 return {"s": o}
             if o is None:
                 return {"null": 1}
-            if id(o) in ids and type(o).__module__ == mod.__name__:
+            if id(o) in ids and of_family(mod, o):
                 return {"ref": ids[id(o)]}
             return {"weird": repr(o)[:100]}
 
@@ -276,7 +315,7 @@ def observe_cont(mod, base, cont):
 
     from jsonargparse import ArgumentError, ArgumentParser
 
-    cls = getattr(mod, base)
+    cls = class_obj(mod, base)
     parser = ArgumentParser(exit_on_error=False)
     if any(c.get("via") == "cfg" for c in cont["srcs"]):
         parser.add_argument("--cfg", action="config")
@@ -311,14 +350,34 @@ def observe_cont(mod, base, cont):
 
 
 def load_family(tmp, fam):
-    with open("%s/%s.py" % (tmp, fam["mod"]), "w") as f:
-        f.write(module_source(fam))
+    import os
+
+    for rel, src in package_source(fam).items():
+        os.makedirs(os.path.dirname("%s/%s" % (tmp, rel)), exist_ok=True)
+        with open("%s/%s" % (tmp, rel), "w") as f:
+            f.write(src)
     importlib.invalidate_caches()
     return importlib.import_module(fam["mod"])
 
 
+def class_obj(mod, name):
+    """the class named `name` of the family, wherever in the package it is defined"""
+    for m in [mod] + [v for v in vars(mod).values() if inspect.ismodule(v) and v.__name__.startswith(mod.__name__ + ".")]:
+        o = vars(m).get(name)
+        if inspect.isclass(o) and o.__name__ == name:
+            return o
+    return getattr(mod, name)
+
+
+def of_family(mod, o):
+    m = type(o).__module__
+    return m == mod.__name__ or m.startswith(mod.__name__ + ".")
+
+
 def grow_family(tmp, mod, fam):
     """a plugin is loaded: classes/functions of `fam` the module does not have yet are appended to its file and defined in it"""
+    if sub_names(fam):
+        return      # a package is loaded whole (histories use one-module families)
     have = set(vars(mod))
     src = growth_source(fam, have)
     if not src:
